@@ -134,3 +134,17 @@ func (r *Rig) Close() {
 	r.Swarm.Close()
 	r.PS.Close()
 }
+
+// Slots hands out indices 0..n-1 so that cases running concurrently never share an identity (hook
+// handlers are process-global and dispatch on a peer id).
+type Slots chan int
+
+func NewSlots(n int) Slots {
+	s := make(Slots, n)
+	for i := 0; i < n; i++ {
+		s <- i
+	}
+	return s
+}
+func (s Slots) Get() int  { return <-s }
+func (s Slots) Put(i int) { s <- i }
